@@ -3,8 +3,8 @@
 For a bin with segment length L, frequency omega, window w and record x let
     S = (sum_n |w[n]| * max_k |x_k[n]|)^2      (triangle bound on |X|^2, raw record scale)
     g = min(L, 1/|sin omega|)                  (error growth of the Goertzel recurrence)
-second-order statistics:   |impl - ref| <= C * eps * L * g * S     (cross: sqrt(Sx*Sy))
-fourth-order (M2):         |impl - ref| <= 4 * C * eps * L * g * Sx * Sy
+second-order statistics:   |impl - ref| <= C * eps * (L * g + K) * S     (cross: sqrt(Sx)*sqrt(Sy); K segments averaged)
+fourth-order (M2):         |impl - ref| <= 4 * C * eps * (L * g + K) * Sx * Sy   (and see budget_m2)
 """
 import numpy as np
 
@@ -37,12 +37,14 @@ def seg_scale(x, starts, L, w, order=-1):
     return float(np.dot(aw, m)) ** 2
 
 
-def budget2(L, omega, S):
-    return C * EPS * L * growth(L, omega) * S + TINY
+def budget2(L, omega, S, K=1):
+    """K: number of segments averaged (the mean over K values adds up to K ulp of relative error: seen 3e-14 at
+    K=34602, L=1 where the recurrence itself contributes nothing)."""
+    return C * EPS * (L * growth(L, omega) + K) * S + TINY
 
 
-def budget4(L, omega, Sx, Sy):
-    return 4.0 * C * EPS * L * growth(L, omega) * Sx * Sy + TINY
+def budget4(L, omega, Sx, Sy, K=1):
+    return 4.0 * C * EPS * (L * growth(L, omega) + K) * Sx * Sy + TINY
 
 
 def budget_m2(e, m2_ref, b4):
